@@ -1,6 +1,7 @@
 import RichModel.Lemmas.Ratio
 import RichModel.Lemmas.TableRender
 import RichModel.Lemmas.TableWidths
+import RichModel.Lemmas.CollapseKeep
 import RichModel.Gen.CellWidths
 import RichModel.Gen.TableBoxes
 /-!
@@ -259,7 +260,7 @@ per column, no column narrower than its natural width.  Any columns (fixed, capp
 (With the pad target repaired, or without a table `min_width`; see `old_expand_exact_fails`.) -/
 theorem table_expand_exact (fl : Flags) (t : Table) (maxWidth : Int) (ws0 : List Int) (hexp : t.expand = true)
     (hfl : fl.minWidthCapsExpand = false ∨ t.minWidth = none)
-    (h0 : t.firstWidths maxWidth = some ws0) (hne : ws0 ≠ []) (hpos : ∀ w ∈ ws0, 1 ≤ w) (hfit : ws0.sum ≤ maxWidth) :
+    (h0 : t.firstWidths fl maxWidth = some ws0) (hne : ws0 ≠ []) (hpos : ∀ w ∈ ws0, 1 ≤ w) (hfit : ws0.sum ≤ maxWidth) :
     ∃ ws, t.calcWidths fl maxWidth = some ws ∧ ws.sum = maxWidth ∧ ws.length = ws0.length ∧ ∀ p ∈ ws0.zip ws, p.1 ≤ p.2 := by
   unfold Table.calcWidths
   rw [h0]
@@ -281,8 +282,8 @@ theorem table_expand_exact_free (fl : Flags) (t : Table) (maxWidth : Int) (hexp 
     (hfl : fl.minWidthCapsExpand = false ∨ t.minWidth = none) (hnr : t.NoRatio) (hfree : t.AllFree) (hne : t.columns ≠ [])
     (hfit : (t.indexed.map (fun ci => orOne (t.measureColumn ci.2 ci.1 maxWidth).maximum)).sum ≤ maxWidth) :
     ∃ ws, t.calcWidths fl maxWidth = some ws ∧ ws.sum = maxWidth ∧ ws.length = t.columns.length := by
-  obtain ⟨ws0, h0, hl, hp⟩ := firstWidths_free t hnr hfree maxWidth
-  have h0' := firstWidths_noRatio t hnr maxWidth
+  obtain ⟨ws0, h0, hl, hp⟩ := firstWidths_free fl t hnr hfree maxWidth
+  have h0' := firstWidths_noRatio fl t hnr maxWidth
   rw [h0] at h0'
   simp only [Option.some.injEq] at h0'
   have hne0 : ws0 ≠ [] := by
@@ -300,6 +301,18 @@ def wTableMin : Table :=
 theorem old_expand_exact_fails : wTableMin.calcWidths Flags.today 10 = some [3] := by decide
 example : wTableMin.calcWidths Flags.repaired 10 = some [10] := by decide
 
+/-- Witness: today an expanding table with a ratio column next to a column that measures 0 (`Table.grid(expand=True)`,
+`add_column(ratio=1)`, `add_column()`, `add_row("abc", "")`) is NOT expanded: 0 cells are reserved for the empty
+column, it gets 1 (`maximum or 1`), the table is one cell over, the collapse takes the cell back from the ratio
+column and the re-measure then shrinks that column to its content. -/
+def wTableRatio : Table :=
+  { columns := [{ header := wCell [], footer := wCell [], cells := [wCell ['a', 'b', 'c']], ratio := some 1 },
+                { header := wCell [], footer := wCell [], cells := [wCell []] }],
+    rowEndSection := [false], box := none, showHeader := false, expandFlag := true, padding := (0, 0, 0, 0) }
+
+theorem old_expand_ratio_fails : wTableRatio.calcWidths Flags.today 30 = some [3, 1] := by decide
+example : wTableRatio.calcWidths Flags.repaired 30 = some [29, 1] := by decide
+
 /-- **table_expand_exact (after collapsing).**  When the natural widths do NOT fit and every column may
 wrap, the collapsed widths sum to exactly `max_width`; if re-measuring the columns at those widths gives the
 same widths back (true of text cells: a cell that was cut to `w` measures `w` at `w`), the table — expanding
@@ -307,11 +320,11 @@ or not, today's code or repaired — is exactly `max_width` wide. -/
 theorem table_exact_collapsed (fl : Flags) (t : Table) (maxWidth : Int) (hnr : t.NoRatio) (hfree : t.AllFree)
     (hne : t.columns ≠ []) (hnw : ∀ c ∈ t.columns, c.noWrap = false) (hmw : 0 ≤ maxWidth)
     (hover : maxWidth < (t.indexed.map (fun ci => orOne (t.measureColumn ci.2 ci.1 maxWidth).maximum)).sum)
-    (hstable : ∀ ws0, t.firstWidths maxWidth = some ws0 →
+    (hstable : ∀ ws0, t.firstWidths fl maxWidth = some ws0 →
       t.remeasure (collapseWidths ws0 t.wrapable maxWidth) = collapseWidths ws0 t.wrapable maxWidth) :
     ∃ ws, t.calcWidths fl maxWidth = some ws ∧ ws.sum = maxWidth ∧ ws.length = t.columns.length := by
-  obtain ⟨ws0, h0, hl, hp⟩ := firstWidths_free t hnr hfree maxWidth
-  have h0' := firstWidths_noRatio t hnr maxWidth
+  obtain ⟨ws0, h0, hl, hp⟩ := firstWidths_free fl t hnr hfree maxWidth
+  have h0' := firstWidths_noRatio fl t hnr maxWidth
   rw [h0] at h0'
   simp only [Option.some.injEq] at h0'
   have hwrap : ∀ c ∈ t.columns, c.width = none ∧ c.noWrap = false := by
@@ -337,20 +350,20 @@ theorem table_exact_collapsed (fl : Flags) (t : Table) (maxWidth : Int) (hnr : t
   have := padTarget_le fl t maxWidth
   split <;> omega
 
-/-- **width_fits** (partial: the hypothesis `hkeep` — collapsing leaves every column at least one cell —
-is what "available width ≥ structural minimum" buys; it is not yet derived from `columns.length ≤ max_width`).
-Full statement: `t.NoRatio → t.AllFree → columns ≠ [] → (∀ c, ¬no_wrap) → columns.length ≤ max_width →
-∃ ws, calcWidths = some ws ∧ ws.sum ≤ max_width`.
+/-- `_collapse_widths` never starves a column: every column free to wrap, every width at least 1, a budget of
+at least one cell per column ⇒ every collapsed width is at least 1 (so the `maximum or 1` of the re-measure
+never *adds* a cell).  The even split with banker's rounding is the delicate case. -/
+theorem collapse_widths_keep (widths : List Int) (wrapable : List Bool) (maxWidth : Int)
+    (hlen : widths.length = wrapable.length) (hall : ∀ b ∈ wrapable, b = true) (h1 : ∀ w ∈ widths, 1 ≤ w)
+    (hmw : (widths.length : Int) ≤ maxWidth) : ∀ w ∈ collapseWidths widths wrapable maxWidth, 1 ≤ w :=
+  collapseWidths_keep widths wrapable maxWidth hlen hall h1 hmw
 
-Every column free to wrap (no `width`, `min_width`, `no_wrap`), cells measuring `0 ≤ max ≤ offered width` (what
-`Measurement.get` guarantees): the table is never wider than the width on offer — natural widths that fit are
-kept (padded at most up to `max_width`), wider ones are collapsed to exactly `max_width` and the re-measure
-(`maximum or 1`) can only shrink a column that still has at least one cell. -/
-theorem width_fits_partial (fl : Flags) (t : Table) (maxWidth : Int) (hnr : t.NoRatio) (hfree : t.AllFree)
+/-- `width_fits` with the "collapse keeps one cell per column" fact as a hypothesis (discharged below). -/
+theorem width_fits_of_keep (fl : Flags) (t : Table) (maxWidth : Int) (hnr : t.NoRatio) (hfree : t.AllFree)
     (hne : t.columns ≠ []) (hnw : ∀ c ∈ t.columns, c.noWrap = false) (hmw : (t.columns.length : Int) ≤ maxWidth)
-    (hkeep : ∀ ws0, t.firstWidths maxWidth = some ws0 → ∀ w ∈ collapseWidths ws0 t.wrapable maxWidth, 1 ≤ w) :
+    (hkeep : ∀ ws0, t.firstWidths fl maxWidth = some ws0 → ∀ w ∈ collapseWidths ws0 t.wrapable maxWidth, 1 ≤ w) :
     ∃ ws, t.calcWidths fl maxWidth = some ws ∧ ws.sum ≤ maxWidth ∧ ws.length = t.columns.length ∧ ∀ w ∈ ws, 1 ≤ w := by
-  obtain ⟨ws0, h0, hl, hp⟩ := firstWidths_free t hnr hfree maxWidth
+  obtain ⟨ws0, h0, hl, hp⟩ := firstWidths_free fl t hnr hfree maxWidth
   have hwrap : ∀ c ∈ t.columns, c.width = none ∧ c.noWrap = false := by
     intro c hc
     obtain ⟨i, hi, rfl⟩ := List.getElem_of_mem hc
@@ -391,5 +404,33 @@ theorem width_fits_partial (fl : Flags) (t : Table) (maxWidth : Int) (hnr : t.No
     rw [h3]
     have := padTarget_le fl t maxWidth
     split <;> omega
+
+/-- **width_fits.**  Every column free to wrap (no `width`, `min_width`, `no_wrap`; no active ratio), cells
+measuring `0 ≤ maximum` (what `Measurement.get` guarantees), and an available width of at least the structural
+minimum — one cell per column: `_calculate_column_widths` succeeds, gives every column at least one cell, and
+the table is NEVER wider than the width on offer.  Natural widths that fit are kept (padded at most up to
+`max_width`); wider ones are collapsed to exactly `max_width`, no column below one cell
+(`collapse_widths_keep`), and the re-measure (`maximum or 1`) can then only shrink a column. -/
+theorem width_fits (fl : Flags) (t : Table) (maxWidth : Int) (hnr : t.NoRatio) (hfree : t.AllFree)
+    (hne : t.columns ≠ []) (hnw : ∀ c ∈ t.columns, c.noWrap = false) (hmw : (t.columns.length : Int) ≤ maxWidth) :
+    ∃ ws, t.calcWidths fl maxWidth = some ws ∧ ws.sum ≤ maxWidth ∧ ws.length = t.columns.length ∧ ∀ w ∈ ws, 1 ≤ w := by
+  apply width_fits_of_keep fl t maxWidth hnr hfree hne hnw hmw
+  intro ws0 h0
+  obtain ⟨ws0', h0', hl, hp⟩ := firstWidths_free fl t hnr hfree maxWidth
+  rw [h0] at h0'
+  simp only [Option.some.injEq] at h0'
+  subst h0'
+  have hwrap : ∀ c ∈ t.columns, c.width = none ∧ c.noWrap = false := by
+    intro c hc
+    obtain ⟨i, hi, rfl⟩ := List.getElem_of_mem hc
+    have : (t.columns[i], i) ∈ t.indexed := by
+      unfold Table.indexed; exact List.mem_zipIdx_iff_getElem?.2 (by simp [hi])
+    exact ⟨(hfree _ this).1, hnw _ (List.getElem_mem _)⟩
+  exact collapse_widths_keep ws0 t.wrapable maxWidth (by simp [Table.wrapable, hl]) (wrapable_all t hwrap) hp (by omega)
+
+/-- Non-vacuity: a two-column text table that does not fit 9 cells is collapsed to exactly 9. -/
+example : ({ columns := [{ header := wCell ['a', 'b', 'c', 'd', 'e', 'f'], footer := wCell [], cells := [wCell ['1']] },
+                          { header := wCell ['g', 'h', 'i', 'j', 'k', 'l', 'm', 'n'], footer := wCell [], cells := [] }],
+             padding := (0, 0, 0, 0) } : Table).calcWidths Flags.today 9 = some [4, 5] := by decide
 
 end RichModel.C07
